@@ -1171,6 +1171,12 @@ impl Kademlia {
                                     ?error,
                                     "failed to process message",
                                 );
+
+                                // A reply that cannot be decoded is a failed response: without
+                                // this the query waits for the peer forever.
+                                if let Some(query_id) = query_id {
+                                    self.engine.register_response_failure(query_id, peer);
+                                }
                             }
                         }
                         QueryResult::ReadFailure { reason } => {
